@@ -737,7 +737,7 @@ def replay(rec):
     if "system" in c:
         from vf.checks import c18
         c18.check_case(run, tuple(c["system"]), tuple(tuple(s_) for s_ in c["goals"]), c["routine"], c["strategy"], c["mixin"],
-                       c["reverse"], c["user_levels"], reuse=c.get("reuse", False), failing_first=c.get("failing_first", 0))
+                       c["reverse"], c["user_levels"], reuse=c.get("reuse", False), failing_first=c.get("failing_first", 0), take=c.get("take"))
     elif "probe" not in c:
         print("replay: a solver history is re-generated from the seed, not replayed")
         return 0
